@@ -659,7 +659,8 @@ type oracle struct {
 	got       int       // number of stream items ingested so far
 	closed    bool
 	prefix    []int // LT nodes loaded before going online
-	lacksPref bool  // responder lacks a block of the locally loaded prefix
+	lacksPref bool  // a needed block lies inside the skipped window (see wnodes)
+	wnodes    map[int]bool
 	failed    bool
 	needRetry bool
 	retryNode int
@@ -706,6 +707,23 @@ func (o *oracle) meta(op []string) {
 			o.lt = append(o.lt, ltNode{b, p, f[2]})
 		}
 		o.hasLT = len(o.lt) > 0
+		// the link trees of this stream come from the reference traversal too (generator): check the
+		// hypotheses the Lean theorems make about them
+		if o.honest && o.hasLT {
+			paths := make([][]string, len(o.lt))
+			depth := make([]int, len(o.lt))
+			for i2, nd := range o.lt {
+				if nd.path != "-" {
+					paths[i2] = strings.Split(nd.path, "/")
+				}
+				if nd.parent >= 0 {
+					depth[i2] = depth[nd.parent] + 1
+				}
+			}
+			for _, e := range dag.ShapeErrors(paths, depth) {
+				o.out.Fail("harness-lt-shape", "link tree violates a hypothesis of the Lean theorems: %s", e)
+			}
+		}
 	case "remote":
 		o.hasRem = true
 		if len(op) > 1 && op[1] != "-" {
@@ -783,15 +801,23 @@ func (o *oracle) online(on bool) {
 		o.isOn = true
 		if o.honest && o.hasLT {
 			o.expected = o.responderStream(o.loaded)
-			// known-finding input class skip-prefix-mismatch (decided from the case alone): among
-			// the first `skip` links of the responder's own traversal there is one beyond the locally
-			// loaded prefix that the responder holds and the requestor does not
+			// known finding skip-prefix-mismatch (computed from the case alone): the link-tree nodes
+			// among the first `skip` links of the responder's own traversal that lie beyond the locally
+			// loaded prefix, that the responder holds and the requestor does not
+			o.wnodes = map[int]bool{}
 			for k, e := range o.expected {
 				if k >= o.loaded {
 					break
 				}
 				if e.node >= len(o.prefix) && e.present && !o.loc[e.c] {
 					o.lacksPref = true
+					// that occurrence and every later occurrence of the block (never sent: the responder
+					// counts it as traversed)
+					for k2 := len(o.prefix); k2 < len(o.lt); k2++ {
+						if o.lt[k2].block == e.c {
+							o.wnodes[k2] = true
+						}
+					}
 				}
 			}
 		}
@@ -940,7 +966,9 @@ func (o *oracle) result(r types.AsyncLoadResult, d *Drv) {
 	}
 	if cls != "" {
 		o.failed = true
-		if o.lacksPref { // known-finding input class, decided from the case alone
+		// the known finding is attributed only to its failure mode: a link of the skipped window
+		// whose block the requestor needs is reported missing; every other failure keeps its class
+		if cls == "honest-missing" && o.wnodes[i] {
 			cls = "skip-prefix-mismatch"
 		}
 		o.out.Fail(cls, "honest exchange: load of %d at %s answered %q; available=%v (local=%v)", cur, o.curPath, render(r, nil), avail, o.loc[o.lt[i].block])
